@@ -35,7 +35,9 @@ def fault_matrix(ctx):
                 if k not in alltypes_at and ti != (k + b) % len(types):
                     continue
                 mode = rng.choice(["solve", "solve", "dgi+solve"]) if k > 3 else "solve"
-                run = mk(fault=(k, exc("injected")), tag="%s/fault@%d:%s/%s" % (name, k, exc.__name__, mode),
+                # exception objects with a message and without any argument (a real Ctrl-C, a bare `raise RuntimeError`) alternate
+                inst = exc("injected") if (k + ti) % 2 == 0 else exc()
+                run = mk(fault=(k, inst), tag="%s/fault@%d:%s%s/%s" % (name, k, exc.__name__, "" if inst.args else "()", mode),
                          listener=rng.choice(["rec", "rec", "none"]))
                 if mode == "dgi+solve":
                     for j in scen.compositions(rng, rng.randint(1, k - 2)):
